@@ -119,7 +119,8 @@ def strings7():
         st.text(alphabet='abcXYZ019 _', min_size=1, max_size=5),
         S.xml_text(3))
     mine = st.lists(pieces, min_size=1, max_size=6).map(''.join)
-    return st.one_of(S.cim_string(), mine, mine, mine)
+    # (Hypothesis favours the first alternative for its simplest cases)
+    return st.one_of(mine, mine, S.cim_string(), mine)
 
 
 def host7():
